@@ -31,6 +31,9 @@ func (C06) Generate(r *core.Rand, tier string, idx int) *core.Scenario {
 	if r.P(1, 12) {
 		sc.Cfg["bulk"] = 1
 	}
+	if r.P(1, 4) {
+		sc.Cfg["numid"] = 1 // the remote's message IDs read as numbers
+	}
 	//                 mcr mrn mdl crt mbx flg upd del idc bmp nop bad rpl cap cst cmv cnp cid
 	weights := []int{4, 2, 2, 12, 8, 8, 4, 4, 2, 1, 1, 5, 10, 4, 4, 3, 6, 1}
 	n := r.Range(20, 50)
@@ -172,6 +175,7 @@ func (C06) Execute(sc *core.Scenario, keepLog bool) *core.Result {
 	return RunInBubble("C06", sc, keepLog, cfg, func(e *Env) {
 		u := e.W.Users[0]
 		u.Conn.MoveRemovesSource = sc.C("labels") == 0
+		u.Conn.NumericIDs = sc.C("numid") == 1
 		st := &c06State{e: e, u: u}
 		inbox := &model.Mailbox{Name: "INBOX", UIDNext: 1, Subscribed: true}
 		for id, nm := range u.Conn.MboxNames {
@@ -389,6 +393,35 @@ func (C06) Execute(sc *core.Scenario, keepLog bool) *core.Result {
 						}
 					}
 				}
+				// the same NEW message may be listed twice, the second entry naming another
+				// mailbox (two label pages of one sync): it ends up in both, as if the entries
+				// had been delivered one by one
+				var twinBox *model.Mailbox
+				var twinObj *model.Obj
+				if abs(a.Arg(5))%4 == 1 && n > 0 && n < 10 {
+					for j, m := range ms {
+						if m == nil {
+							continue
+						}
+						for k := range st.boxes {
+							b := st.boxes[(k+abs(a.Arg(1)))%len(st.boxes)]
+							listed := false
+							for _, id := range batch[j].MailboxIDs {
+								listed = listed || string(id) == b.Remote
+							}
+							if !listed {
+								twinBox, twinObj = b, m.obj
+								second := *batch[j]
+								second.MailboxIDs = []imap.MailboxID{imap.MailboxID(b.Remote)}
+								batch = append(batch, &second)
+								ms = append(ms, nil)
+								e.St.Probes["new_message_listed_twice_with_other_mailbox"]++
+								break
+							}
+						}
+						break
+					}
+				}
 				// with IgnoreUnknownMailboxIDs the remote may name mailboxes gluon does not know
 				// (yet): they are skipped, everything else is applied
 				ignoreUnknown := a.Arg(4)%3 == 0
@@ -425,6 +458,9 @@ func (C06) Execute(sc *core.Scenario, keepLog bool) *core.Result {
 							}
 						}
 					}
+				}
+				if twinBox != nil && twinBox.Index(twinObj) < 0 {
+					twinBox.Add(twinObj, false)
 				}
 				valid++
 				st.flushAll()
